@@ -227,7 +227,17 @@ def run(case):
                         probe()
                     except Exception:  # noqa
                         pass
+            prev = r
             r = _impl_step(r, op, case["key"])
+            if isinstance(r, NDCubeSequence) and isinstance(prev, NDCubeSequence) and r is not prev \
+                    and isinstance(r.data, list) and isinstance(prev.data, list) and len(r.data):
+                # the result holds its own cubes: editing ITS list in place (the whole-axis slice seq[:] included) must
+                # not change which cubes its source holds - and then it describes the cubes it holds now
+                held = [id(c) for c in prev.data]
+                r.data.append(r.data[0])
+                if [id(c) for c in prev.data] != held:
+                    why.append(f"after {op}: appending a cube to the result's data list changed the cubes held by its source")
+                r.data.pop()
     except Exception as e:  # noqa
         r, exc = None, exc_name(e)
     if exc is not None:
